@@ -10,7 +10,11 @@ import GormModel.Lemmas.CallbacksPost
 import GormModel.Lemmas.CallbacksTable
 import GormModel.Lemmas.CallbacksFuel
 import GormModel.Lemmas.CallbacksPrefix
+import GormModel.Lemmas.CallbacksSortBy
+import GormModel.Lemmas.CallbacksRepair
+import GormModel.Lemmas.CallbacksGuard
 import GormModel.Gen.Pipelines
+import GormModel.Gen.CallbackFacts
 namespace Gorm
 open Gen
 open CbL
@@ -251,5 +255,215 @@ theorem C17_stale_backlink_counterexample :
 example : (Proc.run {} [.register "a" "" "" true 0, .register "b" "" "" true 1,
     .register "x" "b" "" true 2, .register "y" "" "a" true 3]).1.fns = [0, 2, 1, 3] := by
   decide
+
+/-! ## The tree under check: `Proc.runR treeRepairs` (repair flags regenerated from callbacks.go)
+
+  Every theorem above is about the ORIGINAL code (`sortCallbacks`, `Proc.run`).  What the differential suite runs
+  against the real code is `Proc.runR treeRepairs`; with no repair present that is `Proc.run`
+  (`C17_unrepaired_tree_is_original`).  The theorems below hold for EVERY combination `r` of repairs, or for
+  every `r` that contains the repair in question; the `_current_tree` theorems say, for the flags regenerated
+  from the tree, "repair present and the full statement" or "repair absent and the listed witness fails". -/
+
+/-- with no repair in the tree, the model the differential suite runs is the original model -/
+theorem C17_unrepaired_tree_is_original (p : Proc) (ops : List RegOp) :
+    Proc.runR {} p ops = Proc.run p ops ∧ ∀ cs, sortCallbacksR {} cs = sortCallbacks cs :=
+  ⟨runR_none p ops, sortCallbacksR_none⟩
+
+/-- `C17_sorted_nodup` / `C17_sorted_complete` for every combination of repairs -/
+theorem C17_sorted_exact_any_tree (r : CbRepairs) (cs : List Cb) :
+    (sortCallbacksR r cs).sorted.Nodup ∧
+    ((sortCallbacksR r cs).err = none → ∀ n, n ∈ (sortCallbacksR r cs).sorted ↔ n ∈ cs.map (·.name)) := by
+  refine ⟨sortCallbacksR_nodup r cs, fun hok n => ⟨sortCallbacksR_sorted_subset r cs n, ?_⟩⟩
+  intro hn
+  obtain ⟨c, hc, rfl⟩ := List.mem_map.mp hn
+  exact sortCallbacksR_complete r cs hok c hc
+
+/-- `C17_table_is_live_names` for every combination of repairs -/
+theorem C17_table_is_live_names_any_tree (r : CbRepairs) (h : List RegOp) :
+    Clean (Proc.runR r {} h).1.callbacks ∧
+    ∀ n, n ∈ (Proc.runR r {} h).1.callbacks.map (·.name) ↔ liveName h n :=
+  ⟨runR_clean r h, runR_names r h⟩
+
+/-- MAIN (every registered, non-removed callback runs exactly once) for every combination of repairs:
+    `C17_exactly_once`, word for word, about the tree under check -/
+theorem C17_exactly_once_any_tree (r : CbRepairs) (h : List RegOp) (op : RegOp) :
+    let res := (Proc.runR r {} h).1.applyR r op
+    res.2 = none →
+      res.1.order.Nodup ∧ (∀ n, n ∈ res.1.order ↔ liveName (h ++ [op]) n) ∧
+      res.1.fns = res.1.order.filterMap (handlerOf res.1.callbacks) ∧ res.1.fns.length = res.1.order.length := by
+  intro res hok
+  have hclean := runR_clean r h
+  have hord : ∀ n, n ∈ res.1.order ↔ liveName (h ++ [op]) n := by
+    intro n
+    rw [liveName_snoc]
+    rw [applyR_order r _ hclean op hok n]
+    exact liveStep_congr (runR_names r h) op n
+  have hfns : res.1.fns = res.1.order.filterMap (handlerOf res.1.callbacks) :=
+    sortCallbacksR_fns_handlerOf r _ hok
+  refine ⟨sortCallbacksR_nodup r _, hord, hfns, ?_⟩
+  rw [hfns]
+  apply length_filterMap_of_isSome
+  intro n hn
+  apply handlerOf_isSome _ (compileR_clean r _)
+  have h1 := (applyR_order r _ hclean op hok n).mp hn
+  exact (applyR_names r _ hclean op n).mpr h1
+
+/-! ### F12 repaired: the depth guard `if depth++; depth > 2*len(cs)+2 { return error }` -/
+
+/-- FULL STRENGTH (the hypothesis `AcyclicRequests` of `C17_fuel_adequate` is gone): with the depth guard NO call
+    of ANY history recurses without bound -- every registration call returns, with an error or without -/
+theorem C17_guard_never_diverges (r : CbRepairs) (hg : r.depthGuard = true) (h : List RegOp) :
+    ∀ e ∈ (Proc.runR r {} h).2, e ≠ some SortErr.fuel := by
+  have hr : r = withGuard r true := by
+    cases r with
+    | mk g c s => simp only at hg; subst hg; rfl
+  apply runR_errs r (fun e => e ≠ some SortErr.fuel) _ h {} []
+  · intro e he; cases he
+  · intro p op
+    unfold Proc.applyR
+    rw [compileR_eq, hr]
+    exact guard_total r _
+
+/-- SAFETY, part 1 (same result): on EVERY table on which the unguarded recursion terminates (on a stack that
+    allows depth `f`) without going deeper than `2n+2`, the guarded `sortCallbacks` returns exactly what the
+    unguarded one returns: the same error (same names) or the same order and handlers, and the same records are
+    written back to `p.callbacks`.  (`sortCallbacksF r cs f` = the code of tree `r` WITHOUT the guard, run on a
+    stack of depth `f`; fuel monotonicity `sortLoop_mono` makes its result independent of `f`.) -/
+theorem C17_guard_conservative (r : CbRepairs) (cs : List Cb) (f : Nat)
+    (hterm : (loopF r cs f).2 ≠ some .fuel) (hb : WithinBound r cs) :
+    sortCallbacksR (withGuard r true) cs = sortCallbacksF r cs f :=
+  guard_conservative r cs f hterm hb
+
+/-- SAFETY, part 2 (error exactly beyond the bound): the guard's error is returned if and only if the unguarded
+    recursion goes deeper than `2n+2`; in particular it IS returned on every table on which the unguarded
+    recursion does not terminate (`Diverges`: out of stack for every stack depth) -/
+theorem C17_guard_error_iff_beyond_bound (r : CbRepairs) (cs : List Cb) :
+    ((sortCallbacksR (withGuard r true) cs).err = some .cycle ↔ ¬ WithinBound r cs) ∧
+    (Diverges r cs → (sortCallbacksR (withGuard r true) cs).err = some .cycle) :=
+  ⟨guard_cycle_iff r cs, guard_on_divergence r cs⟩
+
+/-- SAFETY, part 3 (which tables can be affected): every table whose requests are respected by some rank
+    function is within the bound (its recursion is at most n+1 deep), so the guard's error is only ever returned
+    on tables with CYCLIC requests -- tables on which "an error is returned" is what the property asks for -/
+theorem C17_guard_rejects_only_cyclic (r : CbRepairs) (cs : List Cb)
+    (he : (sortCallbacksR (withGuard r true) cs).err = some .cycle) :
+    ¬ ∃ rank : String → Nat, RKlist (· ∈ cs.map (·.name)) rank cs := by
+  rintro ⟨rank, hr⟩
+  exact (guard_cycle_iff r cs).mp he
+    (within_of_rank r cs (· ∈ cs.map (·.name)) rank (fun c hc => List.mem_map.mpr ⟨c, hc, rfl⟩) hr)
+
+/-- SAFETY, history level: on every history whose requests are acyclic (= outside F12's pattern) the tree with
+    the guard and the tree without it go through exactly the same processor states and return the same errors,
+    call by call -- whatever other repairs are present -/
+theorem C17_guard_same_on_acyclic (r : CbRepairs) (h : List RegOp) (hac : AcyclicRequests h) :
+    Proc.runR (withGuard r true) {} h = Proc.runR (withGuard r false) {} h := by
+  obtain ⟨rank, hr⟩ := hac
+  apply runR_guard_eq_fold r (fun s => ∃ o ∈ h, o.toCb.name = s) rank h
+  · intro op hop
+    refine ⟨⟨op, hop, rfl⟩, ?_⟩
+    intro c hc
+    simp at hc; subst hc
+    exact hr op hop
+  · exact ⟨fun c hc => (nomatch hc), fun c hc => (nomatch hc)⟩
+
+/-- non-vacuity of `C17_guard_conservative`: a table with a cyclic request pair on which the unguarded recursion
+    terminates (with a conflict error) within the bound -/
+example : WithinBound {} [{name := "a"}, {name := "p", after := "r"}, {name := "r", before := "a", after := "p"}] ∧
+    (sortCallbacksR (withGuard {} true)
+      [{name := "a"}, {name := "p", after := "r"}, {name := "r", before := "a", after := "p"}]).err
+      = some (.conflict "p" "r") := by
+  unfold WithinBound loopF
+  decide
+
+/-- the tree as it is now: either the guard is present and no history makes a registration call diverge, or it
+    is absent and the listed witness (a callback naming itself) diverges -/
+theorem C17_unbounded_recursion_current_tree :
+    Gen.sortCallbacksFound = true ∧
+    ((Gen.sortDepthGuard = true ∧ ∀ h : List RegOp, ∀ e ∈ (Proc.runR treeRepairs {} h).2, e ≠ some SortErr.fuel) ∨
+     (Gen.sortDepthGuard = false ∧
+        (Proc.runR treeRepairs {} [.register "a" "" "" true 0, .register "u" "u" "" true 1]).2 = [none, some .fuel])) := by
+  refine ⟨by decide, ?_⟩
+  by_cases hg : Gen.sortDepthGuard = true
+  · left
+    exact ⟨hg, C17_guard_never_diverges treeRepairs hg⟩
+  · right
+    have hg' : Gen.sortDepthGuard = false := by simpa using hg
+    refine ⟨hg', ?_⟩
+    have : treeRepairs = { depthGuard := false, sortCopies := Gen.sortWorksOnCopies, starOrder := Gen.sortStarOrder } := by
+      unfold treeRepairs; rw [hg']
+    rw [this]
+    decide
+
+/-! ### F19 repaired: the pre-pass comparator `!star(cs[i]) && star(cs[j])` -/
+
+/-- FULL STRENGTH: with the repaired comparator the pre-pass is the stable partition "records without a '*'
+    request, then the '*' records" (so its result does not depend on the sorting algorithm or on the table size),
+    and it is idempotent -- a later compile never reorders `p.callbacks` again -/
+theorem C17_prepass_stable_partition (l : List Cb) :
+    stableSortBy starLess l = l.filter (fun c => !c.star) ++ l.filter (·.star) ∧
+    stableSortBy starLess (stableSortBy starLess l) = stableSortBy starLess l :=
+  ⟨stableSortBy_starLess l, stableSortBy_starLess_idem l⟩
+
+/-- SAFETY: on every table that does not hold both an After("*") record and a Before("*") record the repaired
+    pre-pass returns exactly what the original pre-pass returns -/
+theorem C17_prepass_same_without_both_kinds (l : List Cb)
+    (h : (∀ c ∈ l, c.after ≠ "*") ∨ (∀ c ∈ l, c.before ≠ "*")) :
+    stableSortCbs l = stableSortBy starLess l :=
+  stableSortCbs_eq_starLess l h
+
+/-- the tree as it is now: either the comparator is the repaired one and the pre-pass is idempotent on every
+    table, or it is the original one and the listed witness (one name with a Before("*") and an After("*")
+    record) is reordered by every compile -/
+theorem C17_prepass_current_tree :
+    (Gen.sortStarOrder = true ∧ ∀ l, prepass treeRepairs (prepass treeRepairs l) = prepass treeRepairs l) ∨
+    (Gen.sortStarOrder = false ∧
+      prepass treeRepairs (prepass treeRepairs [{name := "u", before := "*"}, {name := "u", after := "*"}])
+        ≠ prepass treeRepairs [{name := "u", before := "*"}, {name := "u", after := "*"}]) := by
+  by_cases hs : Gen.sortStarOrder = true
+  · left
+    refine ⟨hs, fun l => ?_⟩
+    have : treeRepairs.starOrder = true := hs
+    unfold prepass
+    simp only [this, if_true]
+    exact stableSortBy_starLess_idem l
+  · right
+    have hs' : Gen.sortStarOrder = false := by simpa using hs
+    refine ⟨hs', ?_⟩
+    have : treeRepairs.starOrder = false := hs'
+    unfold prepass
+    simp only [this]
+    decide
+
+/-! ### F20 repaired: `sortCallbacks` works on copies of the records -/
+
+/-- FULL STRENGTH: with copies, `compile` writes nothing into the records -- `p.callbacks` afterwards is the
+    filtered, pre-sorted input -- so after ANY history every record of `p.callbacks` is literally one of the
+    registrations of the history (its own name, handler, Before and After): no back-link exists between two
+    compiles, in particular none can outlive a Remove -/
+theorem C17_copies_records_are_registrations (r : CbRepairs) (hc : r.sortCopies = true) :
+    (∀ p : Proc, (p.compileR r).1.callbacks = prepass r (compileTable p)) ∧
+    ∀ h : List RegOp, ∀ c ∈ (Proc.runR r {} h).1.callbacks, ∃ op ∈ h, c = op.toCb :=
+  ⟨compileR_copies r hc, runR_copies_records r hc⟩
+
+/-- the tree as it is now: either the sort works on copies and every stored record is a registration, or it does
+    not and in the listed witness the record of `x` (registered without a request) carries `after = "c"` after
+    `c` has been removed, which places the new `c` in front of `x` -/
+theorem C17_stale_backlink_current_tree :
+    (Gen.sortWorksOnCopies = true ∧
+      ∀ h : List RegOp, ∀ c ∈ (Proc.runR treeRepairs {} h).1.callbacks, ∃ op ∈ h, c = op.toCb) ∨
+    (Gen.sortWorksOnCopies = false ∧
+      let res := Proc.runR treeRepairs {} [.register "a" "" "" true 0, .register "c" "x" "" true 1,
+        .register "x" "" "" true 2, .remove "c", .register "c" "" "*" true 4]
+      res.1.order = ["a", "c", "x"] ∧ res.1.callbacks.map (fun c => (c.name, c.after)) = [("a", ""), ("x", "c"), ("c", "*")]) := by
+  by_cases hc : Gen.sortWorksOnCopies = true
+  · left
+    exact ⟨hc, (C17_copies_records_are_registrations treeRepairs hc).2⟩
+  · right
+    have hc' : Gen.sortWorksOnCopies = false := by simpa using hc
+    refine ⟨hc', ?_⟩
+    have : treeRepairs = { depthGuard := Gen.sortDepthGuard, sortCopies := false, starOrder := Gen.sortStarOrder } := by
+      unfold treeRepairs; rw [hc']
+    rw [this]
+    decide
 
 end Gorm
